@@ -31,7 +31,15 @@ def self_test():
 
 def _df(rows, cols):
     import pandas as pd
-    return pd.DataFrame(rows, columns=cols)
+    df = pd.DataFrame(rows, columns=cols)
+    flavour = (len(rows) + sum(len(str(r[2])) for r in rows)) % 4        # the table's index labels must not matter
+    if flavour == 1:
+        df.index = range(7, 7 + len(rows))
+    elif flavour == 2:
+        df.index = [f"r{i}" for i in range(len(rows))]
+    elif flavour == 3:
+        df.index = [i // 2 for i in range(len(rows))]
+    return df
 
 
 def _groups(rows, cols, by):
@@ -165,7 +173,7 @@ def _pcdelta(xs, ys, bins, normalize=True):
     return [x / t if t else float("nan") for x in h]
 
 
-def k_pcdelta_grouped(ctx, rows, cols, by, seq, bins, normalize=True):
+def k_pcdelta_grouped(ctx, rows, cols, by, seq, bins, normalize=True, pseudocount=0.0):
     import numpy as np
     import pyrepseq as prs
     g = _classes(ctx, rows, cols, by)
@@ -179,6 +187,9 @@ def k_pcdelta_grouped(ctx, rows, cols, by, seq, bins, normalize=True):
     kw = {"bins": bins}
     if not normalize:
         kw["normalize"] = False
+    if pseudocount:
+        kw["pseudocount"] = pseudocount
+        ctx.count("pcDelta_grouped_kwargs_forwarded")
     out = ctx.call(prs.pcDelta_grouped, _df(rows, cols), by, seq, **kw)
     form = "bins0" if bins == 0 else "edges"
     if not out.ok:
@@ -186,6 +197,13 @@ def k_pcdelta_grouped(ctx, rows, cols, by, seq, bins, normalize=True):
         return
     R = out.value
     want = [_pcdelta(_vals(g[k], cols, seq), None, bins, normalize) for k in keys]
+    if pseudocount and bins != 0:
+        want = []
+        for k in keys:
+            xs = _vals(g[k], cols, seq)
+            h = O.hist([O.lev(xs[i], xs[j]) for i in range(len(xs)) for j in range(i + 1, len(xs))], bins)
+            t = sum(h)
+            want.append([(x + pseudocount) / (t + 2 * pseudocount) for x in h])
     try:
         A = np.asarray(R.values, dtype=float).reshape(len(R), -1)
         labels = [tuple(x) if isinstance(x, tuple) else x for x in list(R.index)]
@@ -363,6 +381,7 @@ def _all_for(rows, rng, must):
             yield "pcDelta_grouped", {"rows": rows, "cols": COLS, "by": by, "seq": "seq", "bins": bins}, must
             yield "pcDelta_grouped_cross", {"rows": rows, "cols": COLS, "by": by, "seq": "seq", "bins": bins, "condensed": True}, must
         yield "pcDelta_grouped", {"rows": rows, "cols": COLS, "by": by, "seq": "seq", "bins": [0, 1, 2, 3], "normalize": False}, must
+        yield "pcDelta_grouped", {"rows": rows, "cols": COLS, "by": by, "seq": "seq", "bins": [0, 1, 2, 5], "pseudocount": 0.5}, must
         yield "pcDelta_grouped_cross", {"rows": rows, "cols": COLS, "by": by, "seq": "seq", "bins": 0, "condensed": False}, must
     for base in (2.0, math.e, 10.0, None):
         yield "renyi", {"rows": rows, "cols": COLS, "features": "seq", "base": base}, must
